@@ -1,30 +1,131 @@
-"""Thorough-tier extras, witness replay for known findings, native failing-input search, replay files."""
+"""Everything around the Verus core: assumption guards, the C18 source scan, Kani discharge of dependency contracts (thorough),
+native witness replay for known findings, the native small-domain search that attaches a concrete input to an alarm, replay files."""
 import os
+import re
+import sys
 import json
+import time
+import hashlib
+import subprocess
 
 VERIF = os.path.dirname(os.path.dirname(os.path.abspath(__file__)))
+sys.path.insert(0, os.path.join(VERIF, 'tools'))
+REPO = os.environ.get('VERIF_REPO', '/repo')
+
+# regex literals the trusted prelude is keyed to (prelude/regex.rs, prelude/chrono_parse.rs)
+ISO_REGEX_SHA256 = '8c4d55f195238861f2c9b5051c1b50599b788e4a5edac9e18a9682e53f269156'
+MULTISLASH_LITERAL = '"//+"'
+REGEX_USERS = {'MULTISLASH': ['C09', 'C01', 'C02', 'C08', 'C13'], 'ISO_8601_REGEX': ['C16', 'C08', 'C13']}
+
+
+def assumption_guards(pid):
+    """Assumed contracts that are keyed to exact source text. A mismatch means the assumption does not apply: undecided (exit 2)."""
+    problems = []
+    try:
+        can = open(os.path.join(REPO, 'src', 'canonical.rs'), encoding='utf-8').read()
+        chrono = open(os.path.join(REPO, 'src', 'chronoutil.rs'), encoding='utf-8').read()
+    except OSError as e:
+        return ['cannot read sources: %s' % e]
+    if pid in REGEX_USERS['MULTISLASH']:
+        m = re.search(r'static ref MULTISLASH: Regex = Regex::new\((r?"[^"]*")\)', can)
+        if not m or m.group(1) != MULTISLASH_LITERAL:
+            problems.append('MULTISLASH pattern literal is %s, the assumed contract of replace_all is keyed to %s' % (m.group(1) if m else None, MULTISLASH_LITERAL))
+    if pid in REGEX_USERS['ISO_8601_REGEX']:
+        m = re.search(r'Regex::new\(\s*(r"(?:[^"\\]|\\.)*")', chrono, re.S)
+        h = hashlib.sha256(m.group(1).encode()).hexdigest() if m else None
+        if h != ISO_REGEX_SHA256:
+            problems.append('ISO_8601_REGEX pattern literal changed (sha256 %s): the assumed group-shape contract does not apply' % h)
+    return problems
+
+
+def c18_scan():
+    import scan_state
+    return scan_state.scan(REPO)
+
+
+# ----------------------------------------------------------------------------------------------------------------------
+# native crate (replay/): built against /repo's current tree with `--features unstable`
+def native_build():
+    d = os.path.join(VERIF, 'replay')
+    if not os.path.isdir(d):
+        return None, 'no replay crate'
+    env = dict(os.environ, CARGO_NET_OFFLINE='true', CARGO_TARGET_DIR=os.path.join(VERIF, 'target', 'replay'), VERIF_REPO=REPO)
+    # the crate path-depends on /repo; a different VERIF_REPO is handled through a config override
+    cmd = ['cargo', 'build', '--offline', '--release', '--quiet']
+    if REPO != '/repo':
+        cmd += ['--config', 'patch.crates-io.scratchstack-aws-signature.path="%s"' % REPO]
+    p = subprocess.run(cmd, cwd=d, env=env, stdout=subprocess.PIPE, stderr=subprocess.PIPE, text=True)
+    if p.returncode != 0:
+        return None, 'native build failed: ' + p.stderr[-1500:]
+    return os.path.join(VERIF, 'target', 'replay', 'release', 'verif-replay'), None
+
+
+def native_run(args, timeout=120):
+    exe, err = native_build()
+    if exe is None:
+        return dict(ok=False, error=err)
+    try:
+        p = subprocess.run([exe] + args, stdout=subprocess.PIPE, stderr=subprocess.PIPE, text=True, timeout=timeout)
+    except subprocess.TimeoutExpired:
+        return dict(ok=False, error='native run timed out')
+    out = p.stdout.strip().splitlines()
+    try:
+        return json.loads(out[-1]) if out else dict(ok=False, error='no output', stderr=p.stderr[-500:])
+    except Exception:
+        return dict(ok=False, error='unparsable output', stdout=p.stdout[-800:], stderr=p.stderr[-500:])
 
 
 def replay_witness(finding):
+    """Run the recorded witness of a known finding on the real compiled crate."""
+    w = finding.get('witness')
+    if not w:
+        return None
+    return native_run(['witness', json.dumps(w)])
+
+
+def search_failing_input(pid, obligations):
+    """Small-domain native search against executable mirrors of the spec functions: only to attach a concrete input to an alarm."""
+    fns = sorted(set((o.get('function') or '').split('::')[-1] for o in obligations))
+    r = native_run(['search', pid, json.dumps(fns)], timeout=180)
+    if r and r.get('found'):
+        return r
     return None
 
 
 def run_extras(pid, tier):
-    return dict(complete=[], bounded=[], harnesses=[], native=None)
-
-
-def search_failing_input(pid, obligations):
-    return None
+    rep = dict(complete=[], bounded=[], harnesses=[], native=None, violations=[], undecided=[])
+    rep['undecided'] += assumption_guards(pid)
+    if pid == 'C18':
+        sc = c18_scan()
+        rep['c18_scan'] = sc
+        for f in sc['shared_mutable_state'] + sc['unexpected_lazy_statics']:
+            rep['violations'].append(dict(obligation='C18.no_shared_mutable_state', kind='structural-scan', function=None, message='shared mutable state: ' + f,
+                                          clause=None, repo_site=None, properties=['C18'], verifier_output='tools/scan_state.py: ' + f))
+    if tier == 'thorough':
+        import kani_run
+        k = kani_run.run_for(pid)
+        rep['harnesses'] = k['harnesses']
+        rep['complete'] = [h['name'] for h in k['harnesses'] if h['status'] == 'SUCCESS' and h['complete']]
+        rep['bounded'] = ['%s (bound: %s)' % (h['name'], h['bound']) for h in k['harnesses'] if not h['complete']]
+        for h in k['harnesses']:
+            if h['status'] == 'FAILED':
+                rep['violations'].append(dict(obligation='kani.' + h['name'], kind='kani-harness-failed', function=h.get('target'), message=h.get('detail', '')[:400],
+                                              clause=None, repo_site=None, properties=[pid], verifier_output=h.get('detail', '')))
+        rep['native'] = native_run(['crosscheck', pid], timeout=600)
+    return rep
 
 
 def replay_file(path):
     d = json.load(open(path))
-    print('property %s  (recorded %s)' % (d['property'], d['created']))
+    print('property %s  (recorded %s, tier %s)' % (d['property'], d['created'], d.get('tier')))
     for o in d['failed_obligations']:
         print('obligation %s [%s] in %s' % (o['obligation'], o['kind'], o['function']))
-        print(o['verifier_output'])
-    if d.get('failing_input'):
-        print('failing input:', json.dumps(d['failing_input'], indent=1))
-    else:
-        print('no-failing-input-found')
+        print(o.get('verifier_output') or o.get('message'))
+    fi = d.get('failing_input')
+    if fi:
+        print('failing input recorded:', json.dumps(fi, indent=1))
+        r = native_run(['rerun', json.dumps(fi)])
+        print('re-run on the current tree:', json.dumps(r, indent=1))
+        return 0 if r and r.get('ok') else 1
+    print('no-failing-input-found')
     return 0
